@@ -58,6 +58,7 @@ def serveJson (r : Routes) (tns : Text) (q : Json) : Resp :=
   match getStr q "k" with
   | "rpcb" => serveWire F r tns .rpcName (.bin (getBytes q "b"))
   | "keyb" => serveWire F r tns .key (.bin (getBytes q "b"))
+  | "http" => serveHttp F r tns (getText q "verb") (getText q "path") (getText q "query")
   | _ => serve F r tns (getRequest r q)
 
 def respJson : Resp → Json
@@ -65,6 +66,7 @@ def respJson : Resp → Json
   | .notFound => Json.str "Client.ResourceNotFound"
   | .stuck => Json.str "stuck"
   | .clientFault => Json.str "Client.fault"
+  | .wsdl => Json.str "wsdl"
 
 def errJson : BuildErr → Json
   | .methodAlreadyExists => "MethodAlreadyExistsError"
@@ -97,6 +99,8 @@ def step (j : Json) : Json :=
     Json.mkObj [("ok", Json.bool (addrMatches (compileAddr (withSlash (getText j "addr"))) (withSlash (getText j "path"))))]
   | "utf8" =>
     Json.mkObj [("ok", match decodeName (getBytes j "b") with | some t => textJson t | none => Json.null)]
+  | "iswsdl" =>
+    Json.mkObj [("ok", Json.bool (isWsdlRequest F (getText j "verb") (getText j "path") (getText j "query")))]
   | "verb" =>
     let alts := (getArr j "alts").toList.map jsonText
     Json.mkObj [("ok", Json.bool (verbMatches (some alts) (getText j "verb")))]
